@@ -36,6 +36,11 @@ func loadURL(listURL string) (pemBlocks map[string][]byte, err error) {
 			return nil, err
 		}
 		defer resp.Body.Close()
+		// the body of an error response (404, 503, ...) is not certificate
+		// material. Using it would replace the working set with an empty one.
+		if resp.StatusCode != http.StatusOK {
+			return nil, fmt.Errorf("%s: %s", url, resp.Status)
+		}
 		return io.ReadAll(resp.Body)
 	}
 
